@@ -128,7 +128,7 @@ var ghostWalIdx func(d []byte, o int) int
 // of that clause: a cursor built by a struct literal starts at offset 0, which the io model - ghost
 // position of the reader - does not know.)
 //@ func Reader.All
-//@   property C17
+//@   property C17 C08
 //@   nosafety
 //@   atcall yield@9: arg1 == nil && arg0.Deleted && same(arg0.K, key)
 //@   atcall yield@11: !arg0.Deleted && same(arg0.K, key) && same(arg0.V, value) && arg0.seqNum == seqNum
